@@ -100,12 +100,19 @@ pub const EXOTIC_TEXTS: &[&str] = &[
 fn gen_e2e(rng: &mut Rng, screen: &mut Screen) -> E2eGroup {
     let (mut base, _, _) = c03::gen_spec(rng, screen);
     if rng.chance(1, 5) {
-        let dirs: Vec<String> = base
+        let root = match &base.mode {
+            Mode::Lib { dir, .. } => base.world.resolve(std::path::Path::new(dir)),
+            _ => "/w/c".to_string(),
+        };
+        let mut dirs: Vec<String> = base
             .world
             .dirs()
             .into_iter()
-            .filter(|d| d == "/w/c" || d.starts_with("/w/c/"))
+            .filter(|d| *d == root || d.starts_with(&format!("{}/", root)))
             .collect();
+        if dirs.is_empty() {
+            dirs.push(root.clone());
+        }
         for k in 0..rng.range(1, 2) {
             let d = rng.pick(&dirs).clone();
             let p = crate::world::join(&d, &format!("exotic{}.sol", k));
@@ -391,7 +398,7 @@ impl ConfigGroup {
 }
 
 fn gen_config(ctx: &Ctx, rng: &mut Rng, screen: &mut Screen) -> ConfigGroup {
-    let (base, _, _) = c03::gen_spec(rng, screen);
+    let (base, _, _) = c03::gen_spec_at(rng, screen, false);
     let mut world = base.world.clone();
     world.cwd = "/w".to_string();
     let mut lists: Vec<Vec<String>> = vec![];
